@@ -71,6 +71,12 @@ class Machine:
             self.root = build.build_fiber(spec, name_ranks=True)
         else:
             self.t = build.build_tensor(spec, how)
+            # (dump -> load of a tensor WITHOUT declared shape hands on the estimate as the declared shape of the
+            # loaded tensor; writing beyond a declared shape is the caller's error, so such a history starts from
+            # the reference route instead -- the YAML route keeps its histories for declared shapes)
+            decl = self.t.getShape(authoritative=True)
+            if decl is not None and list(decl) != self.shape:
+                self.t = build.build_tensor(spec, "ref")
             self.root = self.t.getRoot()
         self.log = []
 
